@@ -69,7 +69,9 @@ impl<'v> MutableSlots<'v> {
     }
 
     pub fn get_slot(&self, slot: ModuleSlotId) -> Option<Value<'v>> {
-        self.0.borrow()[slot.0 as usize]
+        // A name can be registered without its slot being allocated yet
+        // (evaluation failed in name resolution): such a variable is unassigned.
+        self.0.borrow().get(slot.0 as usize).copied().flatten()
     }
 
     pub fn set_slot(&self, slot: ModuleSlotId, value: Value<'v>) {
